@@ -169,12 +169,18 @@ pub fn family(tier: Tier) -> Vec<Config> {
                             (Some(5), false, false),
                             // builder limit 1 overridden by `--concurrency 2` (flagged by conc Some(7))
                             (Some(7), false, false),
+                            // the last scenario has no steps: only its hooks log (flagged by conc Some(9))
+                            (Some(9), false, false),
                         ] {
                             let clone_alive = conc == Some(3);
                             let which_late = conc == Some(5);
                             let cli_over = conc == Some(7);
-                            let conc = if cli_over { Some(1) } else { conc };
-                            if (outer || warn || clone_alive || which_late || cli_over) && (gates == GateMode::All || fault != "none") {
+                            let hollow = conc == Some(9);
+                            if hollow && (!hooks || nsc < 2) {
+                                continue;
+                            }
+                            let conc = if cli_over { Some(1) } else if hollow { Some(2) } else { conc };
+                            if (outer || warn || clone_alive || which_late || cli_over || hollow) && (gates == GateMode::All || fault != "none") {
                                 continue;
                             }
                             let mut cfg = Config::default();
@@ -188,7 +194,10 @@ pub fn family(tier: Tier) -> Vec<Config> {
                             }
                             cfg.feats = (0..nsc)
                                 .map(|i| FeatSpec {
-                                    scenarios: vec![scen(if i == 0 { &tags } else { &[] }, &[m, m])],
+                                    scenarios: vec![scen(
+                                        if i == 0 { &tags } else { &[] },
+                                        &[m, m][..if hollow && i + 1 == nsc { 0 } else { 2 }],
+                                    )],
                                     ..Default::default()
                                 })
                                 .collect();
@@ -224,12 +233,13 @@ pub fn family(tier: Tier) -> Vec<Config> {
                             }
                             cfg.max_execs = if tier == Tier::Quick { 4_000 } else { 400_000 };
                             cfg.name = format!(
-                                "trace/n{nsc}|lb{lb}la{la}|r{retry}|{fault}|g{gates:?}|c{conc:?}|hooks{}|outer{}|warn{}|clone{}|cliover{}",
+                                "trace/n{nsc}|lb{lb}la{la}|r{retry}|{fault}|g{gates:?}|c{conc:?}|hooks{}|outer{}|warn{}|clone{}|cliover{}|hollow{}",
                                 u8::from(hooks),
                                 u8::from(outer),
                                 u8::from(warn),
                                 u8::from(clone_alive),
-                                u8::from(cli_over)
+                                u8::from(cli_over),
+                                u8::from(hollow)
                             );
                             out.push(cfg);
                         }
